@@ -751,7 +751,10 @@ pub fn c17(ctx: &mut Ctx) {
         if mine.is_empty() {
             continue;
         }
+        let t_base = std::time::Instant::now();
         let Some((ht, hb)) = check_base_accepts(ctx, base) else { continue };
+        // wall-clock backstop for loops the work meter does not see: 50x the honest run, at least 5 s
+        let slow_limit = (t_base.elapsed() * 50).max(std::time::Duration::from_secs(5));
         let s0 = proofrun::scalar_count(&base.image);
         let (bt, bb) = c17_budget(s0, &base.layout);
         // calibration self-check: honest runs must sit well inside the budget
@@ -768,11 +771,19 @@ pub fn c17(ctx: &mut Ctx) {
             };
             let s = proofrun::scalar_count(&img);
             let (bt, bb) = c17_budget(s, &base.layout);
+            let t_run = std::time::Instant::now();
             let Some(run) = proofrun::run_image(&base.layout, &img, base.security, bt) else {
                 ctx.stats.skip("illtyped");
                 continue;
             };
+            let took = t_run.elapsed();
             ctx.stats.evaluations += 1;
+            if took > slow_limit {
+                let fclass = faults.first().map(|f| f.class()).unwrap_or_default();
+                let class = format!("C17|slow|{fclass}");
+                let replay = replay_envelope("C17", scenario, &ctx.variant, replay_body(base, &faults, "slow", &run.outcome, json!({"took_ms": took.as_millis() as u64, "limit_ms": slow_limit.as_millis() as u64, "ticks": run.ticks})));
+                ctx.violation(&class, &format!("run took {} ms (honest run x50 / 5 s limit: {} ms) with only {} ticks: a loop the work meter does not see; base {} via {:?}", took.as_millis(), slow_limit.as_millis(), run.ticks, base.name, faults.first()), replay);
+            }
             for f in faults.iter().take(1) {
                 ctx.stats.fired(if kind == "inflate" { "inflate" } else { f.kind() });
             }
@@ -904,6 +915,12 @@ pub fn replay(rep: &Value) -> Result<(bool, String), String> {
             matches!(m.run.outcome, Outcome::Overwork { .. }) || m.run.bytes > c17_budget(s, &base.layout).1
         }
         Some("honest-rejected") => !m.run.outcome.is_accept(),
+        Some("slow") => {
+            // wall-clock finding: reproduced if the run again takes longer than the recorded limit
+            let t = std::time::Instant::now();
+            let _ = run_faults(&base, &faults, limit);
+            t.elapsed().as_millis() as u64 > rep["extra"]["limit_ms"].as_u64().unwrap_or(5000)
+        }
         o => return Err(format!("unknown oracle {o:?}")),
     };
     Ok((violated, m.run.outcome.describe()))
